@@ -194,3 +194,29 @@ fn c18_string_utf8() {
     drop(sig);
     drop(s);
 }
+
+/// fixed strings with 1-, 2- and 3-byte characters (concrete content keeps iterator-based implementations of
+/// get_sig - chars(), collect() - within CBMC's reach, where the symbolic instances run out of memory): identity == UTF-8 bytes
+fn string_fixed(txt: &str, expect: &[u8]) {
+    let s = String::from(txt);
+    let sig = s.get_sig();
+    assert!(sig.len() == expect.len());
+    let n = expect.len();
+    for i in 0..6 {
+        if i < n {
+            assert!(sig[i] == expect[i]);
+        }
+    }
+    assert!(s.len() == n);
+    drop(sig);
+    drop(s);
+}
+#[kani::proof]
+#[kani::unwind(10)]
+fn c18_string_fixed() {
+    string_fixed("", &[]);
+    string_fixed("a", &[0x61]);
+    string_fixed("\u{e9}", &[0xC3, 0xA9]);
+    string_fixed("a\u{e9}\u{20ac}", &[0x61, 0xC3, 0xA9, 0xE2, 0x82, 0xAC]);
+    kani::cover!(true, "witness");
+}
